@@ -9,16 +9,21 @@ package main
 //        op = u:<addr>        one UDP query
 //           | t:<addr>:<k>    one TCP connection carrying k queries one after the other
 //           | h:<addr>:<k>    one HTTP/1.1 connection carrying k POSTs
+//           | q:<addr>:<k>    one DoQ connection carrying k queries, one stream each
 //           | x:<addr>:<n>    router.limiterAllowN(addr, n) through the verif hook
 //        <addr> = 4<8 hex>
 // out  : r=<per-op outcome>,... fwd=<queries seen by the upstream>
 //        per query: o = answered NOERROR (HTTP: 200 + NOERROR), r = RCODE REFUSED, 5 = HTTP 503,
-//        c = the connection was closed on us; x ops: o = nil, g = global limit, k = client limit
+//        c = the connection was closed on us; DoQ: x = the stream was closed without an answer;
+//        x ops: o = nil, g = global limit, k = client limit
 
 import (
 	"bufio"
 	"bytes"
+	"context"
+	"crypto/tls"
 	"encoding/binary"
+	"errors"
 	"fmt"
 	"io"
 	"math/rand"
@@ -33,6 +38,7 @@ import (
 	"github.com/IrineSistiana/mosproxy/app/router"
 	"github.com/IrineSistiana/mosproxy/internal/mlog"
 	"github.com/miekg/dns"
+	"github.com/quic-go/quic-go"
 	"github.com/rs/zerolog"
 )
 
@@ -208,6 +214,76 @@ func c15lHTTP(src netip.Addr, port, k int) string {
 	return string(out)
 }
 
+func c15lQUIC(src netip.Addr, port, k int) string {
+	uc, err := net.ListenUDP("udp", &net.UDPAddr{IP: src.AsSlice()})
+	if err != nil {
+		return "E"
+	}
+	defer uc.Close()
+	tr := &quic.Transport{Conn: uc}
+	defer tr.Close()
+	ctx, cancel := context.WithTimeout(context.Background(), 700*time.Millisecond)
+	defer cancel()
+	conn, err := tr.Dial(ctx, &net.UDPAddr{IP: net.IPv4(127, 0, 0, 1), Port: port},
+		&tls.Config{InsecureSkipVerify: true, NextProtos: []string{"doq"}}, &quic.Config{})
+	if err != nil {
+		var ae *quic.ApplicationError
+		if errors.As(err, &ae) {
+			return "c"
+		}
+		return "E"
+	}
+	defer conn.CloseWithError(0, "")
+	var out []byte
+	for i := 0; i < k; i++ {
+		st, err := conn.OpenStreamSync(ctx)
+		if err != nil {
+			out = append(out, 'c')
+			break
+		}
+		st.SetDeadline(time.Now().Add(700 * time.Millisecond))
+		q := c15lQuery()
+		q[0], q[1] = 0, 0
+		fr := make([]byte, 2+len(q))
+		binary.BigEndian.PutUint16(fr, uint16(len(q)))
+		copy(fr[2:], q)
+		_, werr := st.Write(fr)
+		st.Close()
+		var l [2]byte
+		_, rerr := io.ReadFull(st, l[:])
+		if rerr == nil {
+			b := make([]byte, binary.BigEndian.Uint16(l[:]))
+			if _, rerr = io.ReadFull(st, b); rerr == nil {
+				out = append(out, c15lClass(b))
+				continue
+			}
+		}
+		var ae *quic.ApplicationError
+		var se *quic.StreamError
+		switch {
+		case errors.As(rerr, &ae) || errors.As(werr, &ae):
+			out = append(out, 'c')
+		case errors.Is(rerr, io.EOF) || errors.As(rerr, &se) || errors.As(werr, &se):
+			out = append(out, 'x')
+		default:
+			out = append(out, 't')
+		}
+		if out[len(out)-1] == 'c' {
+			break
+		}
+	}
+	return string(out)
+}
+
+func c15lFreeUDPPort() int {
+	u, err := net.ListenUDP("udp", &net.UDPAddr{IP: net.IPv4(127, 0, 0, 1)})
+	if err != nil {
+		return 0
+	}
+	defer u.Close()
+	return u.LocalAddr().(*net.UDPAddr).Port
+}
+
 func c15lRunOnce(m map[string]string) (string, time.Duration, bool) {
 	pu, pt, ph, ok := c15lFreePorts()
 	if !ok {
@@ -225,6 +301,12 @@ func c15lRunOnce(m map[string]string) (string, time.Duration, bool) {
 			GlobalLimit: atoi(m["glob"]),
 			Client:      router.ClientLimiterConfig{Limit: 1, Burst: atoi(m["burst"]), V4Mask: atoi(m["v4"])},
 		},
+	}
+	pq := 0
+	if strings.Contains(m["ops"], "q:") { // the DoQ listener only when it is used
+		pq = c15lFreeUDPPort()
+		cfg.Servers = append(cfg.Servers, router.ServerConfig{Tag: "q", Protocol: "quic", Listen: fmt.Sprintf("127.0.0.1:%d", pq),
+			Tls: router.TlsConfig{DebugUseTempCert: true}})
 	}
 	vr, err := router.VerifRun(cfg)
 	if err != nil {
@@ -254,6 +336,8 @@ func c15lRunOnce(m map[string]string) (string, time.Duration, bool) {
 			outs = append(outs, c15lTCP(src, pt, k))
 		case "h":
 			outs = append(outs, c15lHTTP(src, ph, k))
+		case "q":
+			outs = append(outs, c15lQUIC(src, pq, k))
 		case "x":
 			err := vr.LimiterAllowN(src, k)
 			switch {
@@ -312,6 +396,9 @@ func c15lGen(r *rand.Rand, thorough bool, emit func(c, cat string)) {
 		{fmt.Sprintf("glob=0 burst=5 v4=32 ops=u:%s,u:%s,u:%s,u:%s,u:%s", a, a, a, a2, a2), "udp-mask32"},
 		// /16: 127.0.1.x and 127.0.2.x are one client
 		{fmt.Sprintf("glob=0 burst=9 v4=16 ops=u:%s,u:%s,u:%s,t:%s:1,h:%s:1", a, b, a2, b, a), "mixed-mask16"},
+		// DoQ: the connection cost (15) is charged to the client's address (D9), a refused query closes its stream
+		{fmt.Sprintf("glob=0 burst=16 v4=0 ops=q:%s:1,u:%s,u:%s,q:%s:2", a, a, a2, b), "quic-conn-cost"},
+		{fmt.Sprintf("glob=0 burst=24 v4=0 ops=q:%s:3,q:%s:1,u:%s", a, a2, b), "quic-subnets"},
 		// global first: a global refusal does not charge the client; both refuse -> global
 		{fmt.Sprintf("glob=5 burst=4 v4=0 ops=x:%s:3,x:%s:3,x:%s:2,x:%s:2,x:%s:1", a, b, b, b, a), "direct-global-order"},
 		{fmt.Sprintf("glob=4 burst=3 v4=0 ops=x:%s:3,x:%s:3,x:%s:1,x:%s:1", a, a, a2, b), "direct-global-order"},
@@ -338,7 +425,7 @@ func c15lGen(r *rand.Rand, thorough bool, emit func(c, cat string)) {
 			emit(fmt.Sprintf("glob=%d burst=%d v4=%d ops=%s", g, burst, v4, strings.Join(ops, ",")), "direct-global")
 			continue
 		}
-		burst := 3 + r.Intn(20)
+		burst := 3 + r.Intn(30)
 		var ops []string
 		kinds := ""
 		for j := 0; j < 3+r.Intn(8); j++ {
@@ -346,20 +433,23 @@ func c15lGen(r *rand.Rand, thorough bool, emit func(c, cat string)) {
 			if r.Intn(3) == 0 {
 				s = srcs[0] // a hot client
 			}
-			switch r.Intn(4) {
-			case 0, 1:
+			switch r.Intn(9) {
+			case 0, 1, 2, 3:
 				ops = append(ops, "u:"+s)
 				kinds += "u"
-			case 2:
+			case 4, 5:
 				ops = append(ops, fmt.Sprintf("t:%s:%d", s, 1+r.Intn(4)))
 				kinds += "t"
-			case 3:
+			case 6, 7:
 				ops = append(ops, fmt.Sprintf("h:%s:%d", s, 1+r.Intn(4)))
 				kinds += "h"
+			case 8:
+				ops = append(ops, fmt.Sprintf("q:%s:%d", s, 1+r.Intn(3)))
+				kinds += "q"
 			}
 		}
 		cat := "net"
-		for _, k := range "uth" {
+		for _, k := range "uthq" {
 			if strings.ContainsRune(kinds, k) {
 				cat += "-" + string(k)
 			}
